@@ -259,7 +259,9 @@ def run(ctx):
                 times = base_t + off * u.s
                 tlist = [times]
             scale = 'utc'
-            if rng.random() < 0.25:
+            if rng.random() < 0.25 and mode not in ('at_end', 'just_past_end'):
+                # (not for instants placed exactly on / next to a span end: re-expressing a Time on another scale rounds its two doubles,
+                # which moves it by ~1e-12 s - across the end it was placed on)
                 # the same instants expressed in another time scale (37 s / 69.184 s away in their Julian dates)
                 scale = rng.choice(['tai', 'tt'])
                 times = getattr(times, scale)
